@@ -107,6 +107,9 @@ Proof.
   - f_equal. apply IH. exact H.
 Qed.
 
+Lemma nth_error_Some_lt l i a : nth_error l i = Some a -> i < length l.
+Proof. intros H. apply nth_error_Some. congruence. Qed.
+
 Lemma skipn_skipn' a b l : skipn a (skipn b l) = skipn (b + a) l.
 Proof.
   revert l; induction b as [|b IH]; intros l; [reflexivity|].
